@@ -130,7 +130,11 @@ func HarnessC18Validate() {
 	allow := make([]rbacv1.PolicyRule, 0, nAllow)
 	for i := 0; i < nAllow; i++ {
 		n := "allow" + string(rune('0'+i))
-		allow = append(allow, zzShapedRule(n, focus, 0, hi, zz.Bool(n+".isURL")))
+		lo, h := 0, hi
+		if i > 0 {
+			lo, h = 1, 1 // a second allow rule (thorough tier) has one element per list
+		}
+		allow = append(allow, zzShapedRule(n, focus, lo, h, zz.Bool(n+".isURL")))
 	}
 	reqs := make([]rbacv1.PolicyRule, 0, nReq)
 	for i := 0; i < nReq; i++ {
